@@ -168,9 +168,14 @@ def r7_no_cohort_wide_decision(ctx):
     per_subject = set(cg.reach([job]))
     STATE = re.compile(r"(^|[._])states?$")
 
+    META = {"ndim", "shape", "dtype", "device", "is_cuda", "requires_grad"}
+
     def state_reads(e, defs, depth=0):
         out = []
+        meta_only = {id(a.value) for a in ast.walk(e) if isinstance(a, ast.Attribute) and a.attr in META}  # layout queries are not data
         for n in ast.walk(e):
+            if id(n) in meta_only:
+                continue
             if isinstance(n, ast.Call) and isinstance(n.func, ast.Attribute) and n.func.attr in ("get_tensor_value", "get_tensor_values") and STATE.search(U(n.func.value)):
                 out.append(n)
             elif isinstance(n, ast.Subscript) and STATE.search(U(n.value)):
